@@ -105,7 +105,7 @@ class ChildError(Exception):
 # generation
 # ---------------------------------------------------------------------------
 
-# models with many categorical variants are drawn more often (swarm over code paths, not over model names)
+# thorough tier: models with many categorical variants are drawn more often (swarm over code paths, not over model names)
 WEIGHT = {"cached_store": 4, "multi_tier_cache": 2, "queue_policies": 2, "load_balancer": 2, "rate_limiters": 3,
           "event_log_group": 2, "leader_election": 2, "lsm_wal": 2}
 _PICK = [m for m in MODELS for _ in range(WEIGHT.get(m, 1))]
@@ -118,6 +118,25 @@ def _gen_job(rng, name=None, weighted=True):
 
 
 def gen(rng, tier):
+    """quick: a *cohort* of three different models that are all judged, two interpreters per scenario (cheap perturbations:
+    re-run in the same interpreter after the other members, one fake wall clock per member (offset twice as often as
+    fast/frozen), hash seed 4242 with the members in rotated order so that another member is the first thing a fresh
+    interpreter runs); hash seed 1 and literal subprocesses on a small sample.
+    thorough: one subject, 0-3 preceding models, every perturbation (the schedule of the original design)."""
+    if tier == "quick":
+        names = rng.sample(MODELS, 3)
+        jobs = [_gen_job(rng, n) for n in names]
+        sc = jobs[0]
+        sc["others"] = jobs[1:]
+        sc["plan"] = {
+            "cohort": True,
+            "rotate": rng.choice([1, 2]),
+            "wall": [rng.choice(["offset", "offset", "fast", "frozen"]) for _ in jobs],
+            "hs": [4242],
+            "fresh": rng.random() < 0.05,
+            "obs_numpy": rng.random() < 0.3,
+        }
+        return sc
     sc = _gen_job(rng)
     n_others = rng.choice([0, 1, 1, 2, 3])
     sc["others"] = [_gen_job(rng, weighted=False) for _ in range(n_others)]
@@ -128,7 +147,7 @@ def gen(rng, tier):
         "wall": wall,
         # one or both alternative hash seeds (each costs one more interpreter)
         "hs": list(HASHSEEDS[1:]) if rng.random() < 0.3 else [HASHSEEDS[1:][rng.randrange(2)]],
-        "fresh": rng.random() < (0.06 if tier == "quick" else 0.02),
+        "fresh": rng.random() < 0.02,
         "obs_numpy": rng.random() < 0.25,
     }
     return sc
@@ -148,6 +167,8 @@ def _validate(sc):
         raise InvalidScenario("plan")
     if any(m not in WALL_MODES for m in plan.get("wall", [])) or any(h not in HASHSEEDS[1:] for h in plan.get("hs", [])):
         raise InvalidScenario("plan values")
+    if plan.get("rotate", 1) not in (0, 1, 2):
+        raise InvalidScenario("rotate")
 
 
 # ---------------------------------------------------------------------------
@@ -355,8 +376,7 @@ KIND_SIG = {"wall-offset": "wall-clock", "wall-fast": "wall-clock", "wall-frozen
             "fresh-spawn-hashseed": "hashseed"}
 
 
-def run(sc):
-    _validate(sc)
+def _run_single(sc):
     prog = _program(sc)
     runs = _execute(prog, full=False)
     ref = runs[0][2]
@@ -421,3 +441,107 @@ def run(sc):
     return result(sig=sig, msg=msg or "", digest=ref["digest"], nontrivial=ref["n"] >= 30 and n_cmp >= 3, counters=counters,
                   sim_s=ref["sim_s"], deliveries=ref["n"], klass=ZOO[model]["family"], state=f"{model}:{variant}:{bucket}",
                   extra={"compared": [k for k, _, _, _ in runs[1:]]})
+
+
+def _cohort_program(sc):
+    """Members m0..mK-1 are all judged.  Interpreter A (hash seed 0): every member once (m0 is the first thing a fresh
+    interpreter does), every member a second time (each now runs after all the others), every member under its fake wall
+    clock, observation runs.  Interpreter B (other hash seed): the members in rotated order (another member is first)."""
+    plan = sc["plan"]
+    members = [_subject(sc)] + _others(sc)
+    k = len(members)
+    jobs0 = list(members) + list(members)
+    marks = [(("ref", j), j) for j in range(k)] + [(("after-others" if k > 1 else "repeat", j), k + j) for j in range(k)]
+    wall = plan.get("wall", [])
+    for j, m in enumerate(members):
+        if j < len(wall):
+            jobs0.append({**m, "wall": wall[j]})
+            marks.append(((f"wall-{wall[j]}", j), len(jobs0) - 1))
+    if plan.get("obs_numpy"):
+        for j, m in enumerate(members):
+            jobs0.append({**m, "numpy_seed": False})
+            marks.append((("obs-random-seed-only", j), len(jobs0) - 1))
+    prog = [{"hs": 0, "how": "fork", "jobs": jobs0, "marks": marks}]
+    r = plan.get("rotate", 1) % k
+    order = list(range(k))[r:] + list(range(k))[:r]
+    for h in plan.get("hs", []):
+        prog.append({"hs": h, "how": "fork", "jobs": [members[j] for j in order],
+                     "marks": [(("hashseed", j), pos) for pos, j in enumerate(order)]})
+    if plan.get("fresh"):
+        rev = order[::-1]
+        prog.append({"hs": 1, "how": "spawn", "jobs": [members[j] for j in rev],
+                     "marks": [(("fresh-spawn-hashseed", j), pos) for pos, j in enumerate(rev)]})
+    return prog, members
+
+
+def _run_cohort(sc):
+    prog, members = _cohort_program(sc)
+    flat = _execute(prog, full=False)                     # [((kind, member), hs, result, step)]
+    k = len(members)
+    refs = [None] * k
+    for (kind, j), hs, r, _ in flat:
+        if kind == "ref":
+            refs[j] = r
+    counters = {"fault.others_run": (k - 1) * k if k > 1 else 0}
+    bad = []
+    n_cmp = 0
+    for (kind, j), hs, r, step in flat:
+        if kind == "ref":
+            continue
+        if kind.startswith("obs-"):
+            counters["obs.random_seed_only_runs"] = counters.get("obs.random_seed_only_runs", 0) + 1
+            counters["obs.random_seed_only_changes_run"] = counters.get("obs.random_seed_only_changes_run", 0) + int(r["digest"] != refs[j]["digest"])
+            continue
+        key = {"hashseed": f"fault.hashseed_{hs}", "fresh-spawn-hashseed": "fault.fresh_spawn"}.get(kind, "fault." + kind.replace("-", "_"))
+        counters[key] = counters.get(key, 0) + 1
+        n_cmp += 1
+        if kind == "after-others":
+            counters["probe.event_counter_dirty"] = counters.get("probe.event_counter_dirty", 0) | int(r["obs"]["event_counter_before"] > 0)
+        if r["digest"] != refs[j]["digest"]:
+            bad.append((j, kind, hs))
+    counters.setdefault("probe.event_counter_dirty", 0)
+    states, deliveries, sim_s = [], 0, 0.0
+    for j, (m, ref) in enumerate(zip(members, refs)):
+        counters[f"model.{m['model']}"] = counters.get(f"model.{m['model']}", 0) + 1
+        obs = ref["obs"]
+        for name, v in (("probe.module_random_drawn", obs["drew_random"]), ("probe.numpy_random_drawn", obs["drew_numpy"]),
+                        ("probe.uuid4_called_by_model", obs["uuid4_calls"] > 1), ("probe.wall_clock_read_by_model", obs["wall_reads"] > 2),
+                        ("probe.budget_hit", ref["status"] == "budget"),
+                        ("probe.repo_exception_in_run", ref["status"] not in ("ok", "budget"))):
+            counters[name] = counters.get(name, 0) | int(bool(v))
+        for name, fired in (ref.get("probes") or {}).items():
+            counters[f"probe.zoo.{name}"] = counters.get(f"probe.zoo.{name}", 0) | int(fired)
+        states.append(f"{m['model']}:{VARIANT[m['model']](m['params'])}:{min(ref['n'] // 500, 9)}")
+        deliveries += ref["n"]
+        sim_s += ref["sim_s"]
+    sig = msg = None
+    if bad:
+        # a member differed somewhere: judge that member alone with the single-subject program (reference = first thing in a
+        # fresh interpreter, repeat, after the other members, its wall clock, the other hash seed), every step in a literal
+        # fresh subprocess with full logs -> the signature is the one the single-subject schedule gives
+        counters["probe.difference_confirmed_in_subprocess"] = 1
+        j, kind, hs = bad[0]
+        single = dict(members[j])
+        single["others"] = [m for i, m in enumerate(members) if i != j]
+        wall = sc["plan"].get("wall", [])
+        alt = sorted(set(sc["plan"].get("hs", [])) | ({hs} if hs in HASHSEEDS[1:] else set()))
+        single["plan"] = {"repeat": True, "after_others": bool(single["others"]), "wall": [wall[j]] if j < len(wall) else [], "hs": alt}
+        verdict = _confirm(single, _program(single), None, (KIND_SIG.get(kind, kind), kind, hs))
+        if verdict[0].split("/")[-2] == "unstable":
+            single["plan"] = {"repeat": True, "after_others": bool(single["others"]), "wall": list(WALL_MODES), "hs": list(HASHSEEDS[1:])}
+            verdict = _confirm(single, _program(single), None, (KIND_SIG.get(kind, kind), kind, hs))
+        sig, msg = verdict
+        msg = f"[cohort member {j} of {k}] " + msg
+    import hashlib
+
+    digest = hashlib.blake2b("|".join(r["digest"] for r in refs).encode(), digest_size=12).hexdigest()
+    return result(sig=sig, msg=msg or "", digest=digest, nontrivial=all(r["n"] >= 30 for r in refs) and n_cmp >= 3 * k,
+                  counters=counters, sim_s=sim_s, deliveries=deliveries, klass=f"cohort-of-{k}", state=states,
+                  extra={"members": [m["model"] for m in members], "bad": [list(b) for b in bad]})
+
+
+def run(sc):
+    _validate(sc)
+    if sc["plan"].get("cohort"):
+        return _run_cohort(sc)
+    return _run_single(sc)
